@@ -26,6 +26,7 @@ import (
 
 	"tsim/kernel"
 	"tsim/node"
+	"tsim/xr"
 )
 
 // header tree of the stub Ethereum network
@@ -55,6 +56,7 @@ type ethWorld struct {
 	tp        uint64
 	delay     uint64
 	packets   []*bscPacket
+	hostSent  [][]byte // packets the host chain sent to the Ethereum chain
 	pending   []*ethTx
 	crashNext int
 	londonCfg *params.ChainConfig
@@ -71,6 +73,7 @@ type ethTx struct {
 	height   uint64
 	proof    []byte
 	dontCare bool
+	claimed  []byte // hash the message claims is stored (nil: the packet's own)
 }
 
 // ETHScenario: Ethereum light client in Rinkeby mode (no PoW): header rules and fork handling (C10),
@@ -96,6 +99,15 @@ func (ETHScenario) Generate(rng *rand.Rand, focus, tier string) kernel.Plan {
 	add := func(k string, a ...int64) { ops = append(ops, kernel.Op{K: k, A: a}) }
 	n := 30 + rng.Intn(60)
 	for i := 0; i < n; i++ {
+		if (focus == "C05" || focus == "C02" || focus == "C08") && kernel.Chance(rng, 0.15) || kernel.Chance(rng, 0.02) {
+			// the host sends a packet to the Ethereum chain / the Ethereum chain acknowledges one
+			if kernel.Chance(rng, 0.45) {
+				add("hsend", rng.Int63n(1000))
+			} else {
+				add("hack", rng.Int63n(8), rng.Int63n(2))
+			}
+			continue
+		}
 		switch x := rng.Intn(100); {
 		case x < 30:
 			// extend: parent selector (0 head, 1 any accepted, 2 interior -> fork), length, submission order
@@ -281,6 +293,10 @@ func (w *ethWorld) apply(op kernel.Op) {
 		w.opProbe(op)
 	case "write", "wwrite":
 		w.opWrite(op)
+	case "hsend":
+		w.opHostSend(op)
+	case "hack":
+		w.opStubAck(op)
 	case "recv":
 		w.opRecv(op)
 	case "block":
@@ -543,12 +559,75 @@ func (w *ethWorld) opRecv(op kernel.Op) {
 	mut := proofMutations[kernel.Mod(op.Arg(2), len(proofMutations))]
 	slot := slotFor(pk.path)
 	proof, dontCare := mutateProof(r, mut, at.sn.prove(w.contract, slot), at.sn, older, w.contract, slot, w.other)
-	msg := &packettypes.MsgRecvPacket{Packet: pk.bytes, ProofCommitment: proof, ProofHeight: clienttypes.NewHeight(0, h), Signer: w.relayer.Acc.String()}
-	w.pending = append(w.pending, &ethTx{kind: "recv", msg: msg, pkt: pk, height: h, proof: proof, mut: mut, dontCare: dontCare,
-		desc: fmt.Sprintf("recv seq=%d at h=%d (head %d, delay %d) mut=%s", pk.seq, h, head, w.delay, mut)})
+	var msg sdk.Msg = &packettypes.MsgRecvPacket{Packet: pk.bytes, ProofCommitment: proof, ProofHeight: clienttypes.NewHeight(0, h), Signer: w.relayer.Acc.String()}
+	what := "recv"
+	var claimed []byte
+	if pk.ack != nil {
+		ackBz := pk.ack
+		if mut == "spliced_key" || mut != "none" && r.Intn(3) == 0 {
+			// replay of another packet's acknowledgement: its bytes and its proof, relabelled for this packet
+			if a, pr, ok := spliceAck(pk, w.packets, at.sn, w.contract); ok {
+				ackBz, proof, claimed, mut, dontCare = a, pr, sha(a), "spliced_key", false
+				w.rec.Probe("ack.spliced_replay")
+			}
+		}
+		msg = &packettypes.MsgAcknowledgement{Packet: pk.bytes, Acknowledgement: ackBz, ProofAcked: proof, ProofHeight: clienttypes.NewHeight(0, h), Signer: w.relayer.Acc.String()}
+		what = "ack"
+	}
+	w.pending = append(w.pending, &ethTx{kind: "recv", msg: msg, pkt: pk, height: h, proof: proof, mut: mut, dontCare: dontCare, claimed: claimed,
+		desc: fmt.Sprintf("%s seq=%d at h=%d (head %d, delay %d) mut=%s", what, pk.seq, h, head, w.delay, mut)})
 	if mut != "none" {
 		w.rec.Fault("net.corrupt.proof." + mut)
 	}
+}
+
+// opHostSend: the host sends a packet to the Ethereum chain (its commitment stays until acknowledged).
+func (w *ethWorld) opHostSend(op kernel.Op) {
+	if w.host.InBlock || w.host.Halted != "" {
+		return
+	}
+	to, data := xr.NativeSend(w.name, w.relayer.Eth, big.NewInt(1000+op.Arg(0)%1000))
+	w.now = w.now.Add(3 * time.Second)
+	w.host.BeginBlock(w.now)
+	tx, err := w.host.EthTx(w.gov, &to, big.NewInt(1000+op.Arg(0)%1000), data)
+	if err == nil {
+		res := w.host.DeliverTx(tx)
+		for _, bz := range xr.SentPacketBytes(res.Events) {
+			w.hostSent = append(w.hostSent, bz)
+			w.rec.Probe("host.sent_packet")
+		}
+		w.rec.Logf("host send code=%d sent=%d %s", res.Code, len(w.hostSent), firstLine(res.Log))
+	} else {
+		w.rec.Logf("host send: %v", err)
+	}
+	w.host.EndBlockCommit()
+}
+
+// opStubAck: the Ethereum chain acknowledges a packet of the host (stores the acknowledgement hash in its
+// contract storage); a later "recv" op relays it with a storage proof.
+func (w *ethWorld) opStubAck(op kernel.Op) {
+	if len(w.hostSent) == 0 {
+		return
+	}
+	i := kernel.Mod(op.Arg(0), len(w.hostSent))
+	p, err := xr.DecodePacket(w.hostSent[i])
+	if err != nil {
+		return
+	}
+	for _, x := range w.packets {
+		if x.ack != nil && x.seq == p.Sequence {
+			return // acknowledged already
+		}
+	}
+	a := xr.Ack{Code: uint64(op.Arg(1) % 2), Relayer: w.relayer.Acc.String()}
+	if a.Code != 0 {
+		a.Message = "failed on the eth chain"
+	}
+	ackBz := a.Encode()
+	path := fmt.Sprintf("acks/%s/%s/sequences/%d", p.SrcChain, p.DstChain, p.Sequence)
+	w.state.setStorage(w.contract, slotFor(path), common.BytesToHash(sha(ackBz)))
+	w.packets = append(w.packets, &bscPacket{seq: p.Sequence, bytes: w.hostSent[i], ack: ackBz, path: path, hash: sha(ackBz)})
+	w.rec.Logf("stub acknowledged host packet %d (code %d)", p.Sequence, a.Code)
 }
 
 // rules: the header rules relative to the parent (independent of teleport's implementation;
@@ -801,7 +880,11 @@ func (w *ethWorld) afterRecv(tx *ethTx, ok bool, log string, pre, post map[strin
 		}
 		divergent += ":"
 	}
-	proofOK := have && verifyEthProof(root, w.contract, slotFor(tx.pkt.path), tx.pkt.hash, tx.proof)
+	claimed := tx.pkt.hash
+	if tx.claimed != nil {
+		claimed = tx.claimed
+	}
+	proofOK := have && verifyEthProof(root, w.contract, slotFor(tx.pkt.path), claimed, tx.proof)
 	want := heightOK && proofOK
 	w.rec.Logf("tx recv ok=%v want=%v (heightOK=%v proofOK=%v) %s", ok, want, heightOK, proofOK, tx.desc)
 	if ok {
@@ -811,8 +894,14 @@ func (w *ethWorld) afterRecv(tx *ethTx, ok bool, log string, pre, post map[strin
 			w.rec.Violate("C01", "double_accept", "eth", "packet %d accepted twice", tx.pkt.seq)
 		}
 		tx.pkt.recvOK = true
-		packetReadback(w.rec, w.host, w.name, tx.pkt.seq)
+		if tx.pkt.ack == nil {
+			packetReadback(w.rec, w.host, w.name, tx.pkt.seq)
+		}
 		if !want {
+			if tx.pkt.ack != nil {
+				// the commitment was removed (and the outcome recorded, the fee paid) without a verified acknowledgement
+				w.rec.Violate("C05", "ack_accepted_unproven", divergent+tx.mut, "accepted %s (heightOK=%v proofOK=%v)", tx.desc, heightOK, proofOK)
+			}
 			key := "proof"
 			if !heightOK {
 				key = "height_or_delay"
